@@ -34,5 +34,6 @@ cp -f $V/ocaml/_build/default/driver.exe $B/driver
 ( cd $V/harness && cp /repo/go.sum . && go build -o $B/harness . ) >>$log 2>&1 || { echo "BUILD-FAILED stage=harness"; tail -30 $log; exit 6; }
 # the real CLI, for C19
 ( cd /repo && go build -o $B/tsh . ) >>$log 2>&1 || { echo "BUILD-FAILED stage=tsh"; tail -30 $log; exit 7; }
-mkdir -p $B/std && cp /repo/std/*.tsh $B/std/
+mkdir -p $B/std
+for f in /repo/std/*.tsh; do cmp -s $f $B/std/$(basename $f) || { cp $f $B/std/.$(basename $f).tmp && mv $B/std/.$(basename $f).tmp $B/std/$(basename $f); }; done
 echo BUILD-OK
